@@ -19,6 +19,16 @@ CHECKS = {
         ref="7/C07"),
 }
 
+CHECKS["C05"] = dict(
+    technique="property-based testing (Hypothesis) against an exact integer/Fraction vocabulary specification + exhaustive enumeration of (count, total) pairs",
+    text="Generated corpora and pruning-option subsets (bounds on or next to the real counts) through every preprocessing entry point "
+         "(plain, timed, multiset, tree, NgramVectorizer incl. second-stage n-gram pruning, TokenCooccurrenceVectorizer incl. the empty-"
+         "vocabulary ValueError) against an independent specification; plus complete enumeration of all count/total pairs up to N=300 "
+         "(quick) / 1200 (thorough) for the 'count equals the bound' case. Exploration with one exhaustive sub-space.",
+    note="Frequency-bound ties within 1e-6 relative are accepted either way; max_unique_tokens is judged by a validity predicate that admits "
+         "any tie-breaking; corpora in which no n-gram exists are not judged for n >= 2 (nothing to learn).",
+    ref="7/C05")
+
 PENDING_REASON = "check not built yet in this revision of /verif (planned, see DESIGN.md section 7)"
 
 
